@@ -95,6 +95,7 @@ func (vc *VC) nameEnv(fr *frame, b *ssa.BasicBlock, st *State, phiOverride map[*
 		vars[d.name] = TV{vc.specValue(val, t), t}
 	}
 	// phis of b and of dominating headers override (they are the current values of loop-carried variables)
+	phiNames := map[string]bool{}
 	var chain []*ssa.BasicBlock
 	for blk := b; blk != nil; blk = blk.Idom() {
 		chain = append(chain, blk)
@@ -112,6 +113,12 @@ func (vc *VC) nameEnv(fr *frame, b *ssa.BasicBlock, st *State, phiOverride map[*
 				continue
 			}
 			t := FromGo(p.Type())
+			if prev, shadow := vars[p.Comment]; shadow && phiNames[p.Comment] {
+				// the same source name in an enclosing loop (e.g. the hidden index of a range loop): the outer one
+				// stays reachable as <name>$outer
+				vars[p.Comment+"$outer"] = prev
+			}
+			phiNames[p.Comment] = true
 			vars[p.Comment] = TV{vc.specValue(val, t), t}
 		}
 	}
